@@ -9,7 +9,7 @@ Extraction "hier_model.ml" init step
   is_valid is_unique href_name depth_fuel
   get_hinstances_netlist get_hports_netlist get_hpins_netlist get_hcables_netlist get_hwires_netlist
   hinstances_below hports_below hpins_below hcables_below hwires_below
-  hrefs_of_instances hrefs_of_item all_ipaths all_hwires
+  hrefs_of_instances hrefs_of_instances_in hrefs_of_item all_ipaths all_hwires
   pin_weight get_hwires get_hcables get_hpins get_hwires_ALL
   inner_hwire outer_hwire hpins_of_hwire
   (* cross-check of extraction + driver glue against vm_compute (harness/coq_eval.py): *)
